@@ -64,7 +64,10 @@ END"
 }
 
 pub fn configs(all: bool) -> Vec<Cfg> {
-    let imports: Vec<Vec<String>> = vec![vec![], vec!["core::fmt::Display".into()], vec!["core::fmt::Display".into(), "core::marker::*".into(), "alloc::string::String as AllocString".into()], vec!["core::marker::*".into(), "core::ops::*".into(), "core::fmt::Write as FmtWrite".into(), "core::fmt::Display".into()]];
+    let imports: Vec<Vec<String>> = vec![vec![], vec!["core::fmt::Display".into()], vec!["core::fmt::Display".into(), "core::marker::*".into(), "alloc::string::String as AllocString".into()], vec!["core::marker::*".into(), "core::ops::*".into(), "core::fmt::Write as FmtWrite".into(), "core::fmt::Display".into()],
+        // paths whose first segment begins like a keyword of the use declaration itself, or is a path keyword / raw identifier
+        vec!["user_types::UserId".into(), "users::*".into(), "useful::Thing as used".into(), "pub_types::P".into()],
+        vec!["crate::types::Id".into(), "self::helpers::H".into(), "super::shared::S".into(), "r#type::Thing".into(), "asn::as_::a_s as as_".into()]];
     let annots: Vec<Option<Vec<String>>> = vec![
         None,
         Some(vec!["#[derive(Eq, Hash, PartialOrd)]".into()]),
